@@ -18,7 +18,7 @@ RULE = (
     "depends on the hash seed; generated source functions; standard-library functions by label) and written to a file; for every input, separate child "
     "processes started with different PYTHONHASHSEED values (6 in the quick tier, 24 in the thorough tier) each compute an insertion-order- and "
     "name-sensitive canonical dump of every stage prefix (closed, loop, branch) together with the name-generator state, of the front-end graphs (source and "
-    "bytecode) and of the regenerated source text. Oracle (metamorphic): all children produce byte-identical dumps per input. Non-trivial = the final "
+    "bytecode) and of the regenerated source text. Oracle (metamorphic): all children produce byte-identical dumps per input. History leg: one more child with the first hash seed processes the inputs in the opposite order (one regenerating transformer object per process): the result for an input must not depend on what the process computed before. Name style zpad (numerals differing only in leading zeros) is among the styles. Non-trivial = the final "
     "result contains >= 2 synthetic blocks. Distinct = hash of the input."
 )
 ASSUME = ["a finite set of hash seeds; a dependence that needs a specific collision pattern can be missed"]
